@@ -86,7 +86,7 @@ def run(tier, wd):
     rep.cov["rule"] = ("5 application builders (explicit and default specs, sub commands with interceptors, environment-backed options, multi-valued options "
                        "whose default slices live in variables shared by all instances) x the (application, argument vector) cases of harness/conc.go incl. help, rejected input and "
                        "conversion errors: each is run alone, then rebuilt and rerun in %d permuted orders, then by %d goroutines concurrently, all under Go's race "
-                       "detector; distinct = the cases (counted by the harness); every run must equal the first. Apps.tla (N=3, all interleavings of the five lifecycle steps) is "
+                       "detector (in every second sequential round the environment variables are changed between the declaration and Run); distinct = the cases (counted by the harness); every run must equal the first. Apps.tla (N=3, all interleavings of the five lifecycle steps) is "
                        "checked with the shared-variable table scanned from the sources" % (rounds, gor))
     rep.assumptions += ["data-race freedom is observed by Go's race detector on the schedules that occurred, not proved; TLA+ contributes the interleaving model "
                         "and the shared-variable table (DESIGN section 7)",
